@@ -101,6 +101,18 @@ def _atomic(repo: Repo, f: FunctionInfo, defs: Defs, e, depth=0) -> Optional[str
             return _atomic(repo, f, defs, e.args[0], depth + 1)
         if cn == "Symbol" and len(e.args) >= 1:
             return _atomic(repo, f, defs, e.args[0], depth + 1)
+        # a helper of the same class / module whose every return value is a single token
+        h = None
+        if isinstance(e.func, ast.Attribute) and isinstance(e.func.value, ast.Name) and e.func.value.id in ("self", "cls") and f.cls is not None:
+            h = f.cls.find_method(e.func.attr)
+        elif isinstance(e.func, ast.Name):
+            h = next((g for g in repo.functions if g.module is f.module and g.cls is None and g.name == e.func.id), None)
+        if h is not None and h.node is not f.node:
+            rets = [r.value for r in walk_no_nested(h.node) if isinstance(r, ast.Return) and r.value is not None]
+            hdefs = Defs(h.node, h.params()[0] if h.params() and h.cls is not None else None)
+            rs = [_atomic(repo, h, hdefs, r, depth + 1) for r in rets]
+            if rets and all(rs):
+                return f"{h.name}() returns " + "/".join(sorted(set(rs)))
         return None
     if isinstance(e, ast.Attribute):
         if e.attr == "variable":
@@ -435,18 +447,39 @@ def _charclass(pattern: str) -> Optional[Tuple[bool, Set[str]]]:
 
 def rule_sanitiser(repo: Repo) -> List[Ob]:
     f = repo.function("bayesnet/code_generator.py", "CodeGenerator.__generate_mapping__")
-    subs = [c for c in walk_no_nested(f.node) if isinstance(c, ast.Call) and call_name(c) == "sub" and len(c.args) >= 3]
     obs = []
     ok = False
     msg = "no re.sub sanitiser"
     line = f.node.lineno
-    if subs:
-        c = subs[0]
+    # re.sub(pattern, repl, subject)  or  COMPILED.sub(repl, subject) with COMPILED = re.compile(pattern) at module / class level
+    found = None
+    for c in walk_no_nested(f.node):
+        if not (isinstance(c, ast.Call) and call_name(c) == "sub" and isinstance(c.func, ast.Attribute)):
+            continue
+        recv = c.func.value
+        if isinstance(recv, ast.Name) and recv.id == "re" and len(c.args) >= 3:
+            found = (c, c.args[0], c.args[1], c.args[2])
+            break
+        rname = recv.id if isinstance(recv, ast.Name) else recv.attr if isinstance(recv, ast.Attribute) else None
+        if rname and len(c.args) >= 2:
+            for body in (f.module.tree.body, f.cls.node.body if f.cls is not None else []):
+                for st in body:
+                    if isinstance(st, ast.Assign) and isinstance(st.targets[0], ast.Name) and st.targets[0].id == rname \
+                            and isinstance(st.value, ast.Call) and call_name(st.value) == "compile" and st.value.args:
+                        found = (c, st.value.args[0], c.args[0], c.args[1])
+            if found:
+                break
+    other_filters = [c for c in walk_no_nested(f.node) if isinstance(c, ast.Call) and call_name(c) in ("translate", "filter", "isalnum", "isidentifier", "sub", "replace")]
+    if found is None and other_filters:
+        obs.append(inconclusive("C-sanitiser", "bayesnet/code_generator.py::__generate_mapping__::charclass", f.relpath, other_filters[0].lineno, f.qualname,
+                                f"name filtering through `{src(other_filters[0])[:50]}` not recognised"))
+    if found is not None:
+        c, pat_e, repl_e, subj_e = found
         line = c.lineno
-        pat = c.args[0].value if isinstance(c.args[0], ast.Constant) else None
-        repl = c.args[1].value if isinstance(c.args[1], ast.Constant) else None
+        pat = pat_e.value if isinstance(pat_e, ast.Constant) else None
+        repl = repl_e.value if isinstance(repl_e, ast.Constant) else None
         cc = _charclass(pat) if isinstance(pat, str) else None
-        lowered = "lower" in src(c.args[2])
+        lowered = "lower" in src(subj_e)
         # the program grammar: VARIABLE = CNAME = ("_"|LETTER)("_"|LETTER|DIGIT)* ; arithmetic atoms = (NUMBER|"I"|LCASE_LETTER|"_")+
         allowed = set("abcdefghijklmnopqrstuvwxyz0123456789_")
         if cc and cc[0] and repl == "":
@@ -457,7 +490,8 @@ def rule_sanitiser(repo: Repo) -> List[Ob]:
                    f"sanitiser lets {sorted(kept_effective - allowed)} through: generated names are not arithmetic atoms of syntax.lark")
         else:
             msg = f"sanitiser pattern {pat!r} is not a negated character class removed from the name"
-    obs.append(Ob("C-sanitiser", "bayesnet/code_generator.py::__generate_mapping__::charclass", f.relpath, line, f.qualname, ok, msg))
+    if found is not None or not other_filters:
+        obs.append(Ob("C-sanitiser", "bayesnet/code_generator.py::__generate_mapping__::charclass", f.relpath, line, f.qualname, ok, msg))
     # names must also be made unique
     ucalls = [c for c in walk_no_nested(f.node) if isinstance(c, ast.Call) and call_name(c) == "get_unique_name"]
     uniq = False
@@ -489,7 +523,7 @@ def mut_sanitiser(repo: Repo) -> List[Mutant]:
     def widen(tree):
         fn = find_def(tree, "CodeGenerator.__generate_mapping__")
         for c in ast.walk(fn):
-            if isinstance(c, ast.Call) and call_name(c) == "sub":
+            if isinstance(c, ast.Call) and call_name(c) == "sub" and len(c.args) >= 3:
                 c.args[0] = ast.Constant(value="[^A-Za-z0-9_\\-]+")
                 return True
         return False
@@ -511,7 +545,7 @@ def mut_sanitiser(repo: Repo) -> List[Mutant]:
     def nolower(tree):
         fn = find_def(tree, "CodeGenerator.__generate_mapping__")
         for c in ast.walk(fn):
-            if isinstance(c, ast.Call) and call_name(c) == "sub":
+            if isinstance(c, ast.Call) and call_name(c) == "sub" and len(c.args) >= 3:
                 c.args[2] = ast.Name(id="varname", ctx=ast.Load())
                 return True
         return False
